@@ -41,6 +41,7 @@ pub fn cluster_check(property: &str, tier: &str) -> Option<Check> {
             menu.breaks = !quick;
             menu.max_heartbeats = 1;
             menu.mid_turn_timers = true;
+            menu.resp_pairs = true;
             menu.vote_answers = vec![VoteAns::Deliver, VoteAns::LoseResp, VoteAns::Lose];
             menu.writes = vec![put("a", "1")];
             menu.max_writes = 1;
@@ -63,6 +64,42 @@ pub fn cluster_check(property: &str, tier: &str) -> Option<Check> {
                 max_depth: if quick { 8 } else { 12 },
                 max_devs: if quick { 2 } else { 3 },
             });
+            // node 3 has run two elections nobody heard of and sits one term ahead of what node 1
+            // or 2 can win next: replies carrying the higher term race with quorum-completing ones
+            if let Some(p) = build_prefix(&three, |s| {
+                for _ in 0..2 {
+                    s.ev(Event::Timeout(3));
+                    if s.election_node().is_none() {
+                        s.ev(Event::Timeout(3));
+                    }
+                    while let Some(_) = s.election_node() {
+                        let next = s.next_vote_peer();
+                        match next {
+                            Some(p) => {
+                                s.ev(Event::Vote(p, VoteAns::Lose));
+                            }
+                            None => break,
+                        }
+                    }
+                }
+                s.view(3).map(|v| v.term >= 3).unwrap_or(false)
+            }) {
+                let mut m = menu.clone();
+                m.timeout_nodes = vec![1, 2];
+                m.max_crashes = 0;
+                m.crashes = vec![];
+                m.stops = false;
+                m.max_writes = 0;
+                m.mid_turn_timers = false;
+                runs.push(RunSpec {
+                    name: "3v-node3-two-terms-ahead-after-unheard-elections".into(),
+                    opts: three.clone(),
+                    menu: m,
+                    prefix: p,
+                    max_depth: if quick { 8 } else { 11 },
+                    max_devs: if quick { 2 } else { 3 },
+                });
+            }
             // even-sized clusters: a majority of 4 is 3, of 2 is 2 (off-by-one in a quorum
             // computation does not show with 3 or 5 voters)
             {
@@ -268,7 +305,14 @@ pub fn cluster_check(property: &str, tier: &str) -> Option<Check> {
             }
             Some(Check { runs, budget_s: if quick { 50 } else { 1200 } })
         }
-        "C03" | "C26" | "C27" | "C28" => Some(membership_check(property, quick)),
+        "C03" | "C26" | "C28" => Some(membership_check(property, quick)),
+        "C27" => {
+            let mut c = membership_check(property, quick);
+            if let Some(r) = learner_lease_run(quick) {
+                c.runs.insert(0, r);
+            }
+            Some(c)
+        }
         "C10" | "C11" | "C12" => Some(timed_check(property, quick)),
         "C30" | "C32" => Some(liveness_check(property, quick)),
         "C33" => Some(compaction_check(quick)),
@@ -450,6 +494,50 @@ pub fn timed_opts() -> Opts {
     o
 }
 
+/// A learner keeps acknowledging the leader while both other voters hear nothing from it and
+/// elect a new leader among themselves: the learner's acknowledgements must not keep the old
+/// leader's lease alive (C12, C27).
+fn learner_lease_run(quick: bool) -> Option<RunSpec> {
+    use crate::simkit::cluster::RPolicy;
+    let mut ol = timed_opts();
+    ol.learners = vec![4];
+    let mut m = Menu::default();
+    m.timeouts = false;
+    m.heartbeats = false;
+    m.max_ticks = if quick { 2 } else { 4 };
+    m.vote_answers = vec![VoteAns::Deliver, VoteAns::Lose];
+    m.read_targets = crate::simkit::menu::Targets::Leaders;
+    m.max_reads = 2;
+    m.reads = vec![("a".into(), RPolicy::Lease)];
+    let p = build_prefix(&ol, |s| {
+        let Some(l) = s.run_until_leader() else { return false };
+        if l != 1 {
+            return false;
+        }
+        s.drain_all();
+        for _ in 0..60 {
+            if s.election_node() == Some(2) {
+                return true;
+            }
+            if s.election_node().is_some() {
+                return false;
+            }
+            s.ev(Event::Tick);
+            // only the learner hears from the leader (and answers)
+            s.drain(|l, _| l.from == 1 && l.to == 4);
+        }
+        false
+    })?;
+    Some(RunSpec {
+        name: "3v+1learner-timed-only-the-learner-hears-the-leader-node2-starts-election".into(),
+        opts: ol,
+        menu: m,
+        prefix: p,
+        max_depth: if quick { 8 } else { 11 },
+        max_devs: if quick { 2 } else { 3 },
+    })
+}
+
 fn timed_check(property: &str, quick: bool) -> Check {
     use crate::simkit::cluster::RPolicy;
     let mut runs = vec![];
@@ -521,6 +609,11 @@ fn timed_check(property: &str, quick: bool) -> Check {
             max_depth: if quick { if property == "C10" { 7 } else { 9 } } else { 12 },
             max_devs: if quick { 2 } else { 3 },
         });
+    }
+    if property == "C12" {
+        if let Some(r) = learner_lease_run(quick) {
+            runs.push(r);
+        }
     }
     // ---- B: same, with an acknowledged write and a gated (lagging) state machine on the leader
     let mut og = opts.clone();
